@@ -40,7 +40,7 @@ def cases_a(draw):
     ids, deps = draw(graphs())
     stmts = []
     for i in ids:
-        kind = draw(st.sampled_from(["assign", "assign", "assign", "yield", "nop", "fail"]))
+        kind = draw(st.sampled_from(["assign", "assign", "assign", "yield", "nop", "fail", "toggle0", "toggle1"]))
         guard = draw(st.sampled_from(["true", "true", "false", "flag0", "flag1", "notflag0", "notflag1"]))
         if kind == "fail":
             guard = draw(st.sampled_from(["false", "flag0", "notflag1", "flag1"]))
@@ -101,6 +101,11 @@ def build_a_statements(stmts_):
     for k, s in enumerate(stmts_):
         if s["kind"] == "nop":
             out.append(lang.Nop(id=s["id"], depends_on=s["deps"]))
+        elif s["kind"] in ("toggle0", "toggle1"):
+            # rewrites a flag that other statements' guards mention: a guard is evaluated when its statement is visited
+            f = "<state>f" + s["kind"][-1]
+            out.append(lang.Assign(id=s["id"], assignee=f, assignee_subscript=(), expression=LogicalNot(var(f)),
+                                   condition=conds[s["guard"]], depends_on=s["deps"]))
         elif s["kind"] == "assign":
             out.append(lang.Assign(id=s["id"], assignee="x%d" % k, assignee_subscript=(), expression=k,
                                    condition=conds[s["guard"]], depends_on=s["deps"]))
@@ -135,8 +140,11 @@ def check_a(case):
     byids = {"p": {s["id"]: s for s in case["stmts"]}}
     if "stmts2" in case:
         byids["q"] = {s["id"]: s for s in case["stmts2"]}
-    flagv = {"true": True, "false": False, "flag0": case["flags"][0], "flag1": case["flags"][1],
-             "notflag0": not case["flags"][0], "notflag1": not case["flags"][1], None: True}
+    flags = [bool(case["flags"][0]), bool(case["flags"][1])]      # model of the two flags (toggled by some statements)
+
+    def gv(guard):
+        return {"true": True, "false": False, "flag0": flags[0], "flag1": flags[1],
+                "notflag0": not flags[0], "notflag1": not flags[1], None: True}[guard]
     for step in range(case["steps"]):
         del log[:]
         failed = False
@@ -153,10 +161,19 @@ def check_a(case):
             return "step %d: %s" % (step, m)
         visited = [e[1] for e in log if e[0] == "visit"]
         executed = [e[1] for e in log if e[0] == "exec"]
+        want_exec = []
         for e in log:
-            if e[0] == "visit" and e[2] != flagv[byid[e[1]]["guard"]]:
-                return "step %d: guard of %s evaluated to %s" % (step, e[1], e[2])
-        want_exec = [i for i in visited if flagv[byid[i]["guard"]]]
+            # replay the step on the model: a guard is evaluated with the flag values current at the visit
+            if e[0] == "visit":
+                want = gv(byid[e[1]]["guard"])
+                if e[2] != want:
+                    return "step %d: guard of %s evaluated to %s when the statement was visited, its value then was %s" % (
+                        step, e[1], e[2], want)
+                if want:
+                    want_exec.append(e[1])
+                    k_ = byid[e[1]]["kind"]
+                    if k_ in ("toggle0", "toggle1"):
+                        flags[int(k_[-1])] = not flags[int(k_[-1])]
         if executed != want_exec:
             return "step %d: exec callbacks for %s, but the visited statements whose guard holds are %s" % (
                 step, executed, want_exec)
